@@ -36,7 +36,7 @@ Proof.
 Qed.
 
 (** a counting loop: local 1 += local 0, local 0 -= 1, until local 0 = 0 (back edge [br 0], exit
-    [br_if 1] out of the loop and the block); then a guarded [unreachable] *)
+    [br_if 1] out of the loop and the block); then a guarded [return] and a guarded [unreachable] *)
 Definition loop_body : list instr :=
   [ Block None
       [ Loop None
@@ -44,6 +44,8 @@ Definition loop_body : list instr :=
             Basic (BLocalGet 1); Basic (BLocalGet 0); Basic (BBinop T_i32 Add); Basic (BLocalSet 1);
             Basic (BLocalGet 0); Basic (BConst T_i32 1); Basic (BBinop T_i32 Sub); Basic (BLocalSet 0);
             Basic (BBr 0) ] ];
+    Basic (BLocalGet 1); Basic (BConst T_i32 6); Basic (BRelop T_i32 Eq);
+    If None [ Basic BReturn ] [];
     Basic (BLocalGet 1); Basic (BConst T_i32 100); Basic (BRelop T_i32 GtU);
     If None [ Basic BUnreachable ] [] ].
 
@@ -56,6 +58,7 @@ Lemma ex_loop :
   /\ (forall host cap m st,
         exec_instr host cap m 200 st [VI32 4; VI32 0] [] (Block None loop_body) = RNormal st [VI32 0; VI32 10] []
         /\ exec_instr host cap m 200 st [VI32 0; VI32 7] [] (Block None loop_body) = RNormal st [VI32 0; VI32 7] []
+        /\ exec_instr host cap m 200 st [VI32 3; VI32 0] [] (Block None loop_body) = RReturn st []
         /\ exec_instr host cap m 200 st [VI32 20; VI32 0] [] (Block None loop_body) = RTrap
         /\ exec_instr host cap m 20 st [VI32 20; VI32 0] [] (Block None loop_body) = RFuel).
 Proof.
